@@ -128,9 +128,11 @@ class World(object):
 
 
 class FakeConn(object):
+    """the connection as the server sees it: requests are answered in the order they arrive (C15), one reply per request"""
     def __init__(self, w):
         self.w = w
         self.sent, self.closed = [], False
+        self.answered = 0
         w.conns.append(self)
 
     def send_bytes(self, b):
@@ -138,6 +140,10 @@ class FakeConn(object):
 
     def recv_bytes(self):
         from supp.umsgpack import dumps
+        # the oldest request that has not been answered yet (with one thread: the one just sent)
+        if self.answered < len(self.sent):
+            self.answered += 1
+            return dumps((('reply-to', self.answered), True))
         return dumps((('reply-to', len(self.sent)), True))
 
     def close(self):
@@ -270,6 +276,122 @@ def startup_interleavings(run, only=None):
                         prove('one-request-sent-one-reply-returned', len(w.env.conn.sent) == 1 and out[1] == ['reply-to', 1], path=p)
                 core.explore(body, on_path)
     run.case = None
+
+
+CONCURRENT_REPLAY = '''import sys, threading; sys.path.insert(0, %(repo)r)
+from supp import remote
+from supp.umsgpack import dumps, loads
+class Conn(object):
+    """answers in arrival order; a reader is handed the oldest unanswered request's reply"""
+    def __init__(self): self.q, self.n, self.lock, self.gate = [], 0, threading.Lock(), threading.Barrier(2, timeout=2)
+    def send_bytes(self, b):
+        with self.lock: self.q.append(loads(b))
+        try: self.gate.wait()          # both threads have sent before either receives - unless the client serialises its calls
+        except threading.BrokenBarrierError: pass
+    def recv_bytes(self):
+        with self.lock: r = self.q.pop(0)
+        return dumps((r[1][0], True))
+env = remote.Environment(); env.conn = Conn()
+out = {}
+def call(tag): out[tag] = env._call('echo', tag)
+ts = [threading.Thread(target=call, args=(t,)) for t in ('first', 'second')]
+ts[1].start(); ts[0].start(); [t.join() for t in ts]
+print(out)
+print('REPRODUCED: a caller received the reply to another thread\\'s request' if any(k != v for k, v in out.items()) else 'not reproduced')
+'''
+
+
+@harness(['C16'], 'supp.remote.Environment._call[concurrent calls on the established connection]')
+def concurrent_calls(run):
+    """every call is answered - with ITS OWN reply: while this thread is inside _call on the established connection, other threads run the same
+    _call.  If the code sends and receives inside a critical section, another thread's call is one atomic step that cannot happen while this
+    thread is in its own; if it does not, another thread's send and receive are separate steps that may fall between this thread's send and
+    receive.  The connection answers in arrival order and hands a reader the oldest unanswered reply.  Obligation: the reply this thread returns
+    is the reply to the request it sent, and the other thread gets its own too."""
+    import supp.remote as R
+    import _thread
+    run.trust('the server answers requests in the order they arrive (C15); threading.Lock gives mutual exclusion')
+    run.concretise = lambda model, ob: {'input': 'two threads calling at the same time on one connection', 'script': CONCURRENT_REPLAY % {'repo': core.REPO}}
+    code = R.Environment._call.__code__
+    holder = {}
+
+    def locks_held(env):
+        return [k for k, v in vars(env).items() if isinstance(v, _thread.LockType) and k != 'prepare_lock' and v.locked()]
+
+    def tracer(frame, event, arg):
+        if frame.f_code is code:
+            def local(frame, event, arg):
+                if event == 'line':
+                    st = holder['st']
+                    env = st['env']
+                    for _ in range(2):
+                        if st['steps'] >= 3 or not hasattr(env, 'conn'):
+                            break
+                        conn = env.conn
+                        ts = []
+                        if locks_held(env):
+                            pass            # this thread is in its critical section: nobody else is
+                        elif st['serialised']:
+                            ts = ['other-thread-calls']
+                        else:
+                            ts = ['other-thread-receives'] if st['other_pending'] else ['other-thread-sends']
+                        if not ts:
+                            break
+                        if core.choice(2) == 0:
+                            break
+                        st['steps'] += 1
+                        st['trace'].append(ts[0])
+                        if ts[0] in ('other-thread-sends', 'other-thread-calls'):
+                            conn.send_bytes(b'other')
+                            st['other_index'] = len(conn.sent)
+                            st['other_pending'] = True
+                        if ts[0] in ('other-thread-receives', 'other-thread-calls'):
+                            from supp.umsgpack import loads
+                            got = loads(conn.recv_bytes())[0]
+                            st['other_pending'] = False
+                            if got != ['reply-to', st['other_index']]:
+                                st['other_wrong'] = (got, st['other_index'])
+                return local
+            return local
+        return None
+
+    def body():
+        env = R.Environment()
+        env.conn = FakeConn(type('W', (), {'conns': []})())
+        st = {'env': env, 'steps': 0, 'trace': [], 'other_pending': False, 'other_wrong': None, 'serialised': False}
+        holder['st'] = st
+        # does the code hold a lock of its own while it sends?  (decided by watching the real code send, without interference)
+        probe = R.Environment()
+        seen = []
+
+        class Probe(FakeConn):
+            def send_bytes(self, b):
+                seen.append(bool(locks_held(probe)))
+                FakeConn.send_bytes(self, b)
+        probe.conn = Probe(type('W', (), {'conns': []})())
+        probe._call('assist', 1)
+        st['serialised'] = bool(seen and all(seen))
+        sys.settrace(tracer)
+        try:
+            r = env._call('assist', 1)
+        finally:
+            sys.settrace(None)
+        mine = [i + 1 for i, b in enumerate(env.conn.sent) if b != b'other']
+        return r, mine
+
+    def on_path(p, out):
+        st = holder['st']
+        sched = ' ; '.join(st['trace']) or 'no interference'
+        if out[0] != 'ok':
+            prove('no-exception', False, clause='[%r after: %s]' % (out[1], sched), path=p)
+            return
+        r, mine = out[1]
+        prove('one-request-sent', len(mine) == 1, path=p)
+        prove('this-caller-gets-the-reply-to-its-own-request', len(mine) == 1 and r == ['reply-to', mine[0]],
+              clause='the reply returned is the reply to the request this thread sent [returned %r, own request #%r, schedule: %s]' % (r, mine, sched), path=p)
+        prove('the-other-caller-gets-its-own-reply', st['other_wrong'] is None,
+              clause='[the other thread received %r for its request #%r; schedule: %s]' % ((st['other_wrong'] or (None, None)) + (sched,)), path=p)
+    core.explore(body, on_path)
 
 
 @harness(['C16', 'C15'], 'supp.remote.Environment.close / _call[sequential contracts]')
